@@ -35,7 +35,7 @@ func runGrefcount(c *Ctx) {
 		if v := paramWhere(d, func(t types.Type) bool { return isBasic(t, types.IsInteger) }); v != nil {
 			gen = c.Role(v)
 		}
-		c.Walk("R7", &core.Config{}, core.Entry{Decl: d}, func(p *core.Path) {
+		c.Walk("R7", &core.Config{Follow: pkgFollow}, core.Entry{Decl: d}, func(p *core.Path) {
 			g := prepare(c, p)
 			var relVar *types.Var
 			callIdx := -1
@@ -91,7 +91,7 @@ func runGrefcount(c *Ctx) {
 				p    *core.Path
 			}
 			var rps []rp
-			c.Walk("R12", &core.Config{}, core.Entry{Lit: l, Pkg: d.Pkg, Outer: d, Name: lname}, func(p *core.Path) {
+			c.Walk("R12", &core.Config{Follow: func(f *types.Func) bool { return pkgFollow(f) && f.Name() != "startResolveLocked" }}, core.Entry{Lit: l, Pkg: d.Pkg, Outer: d, Name: lname}, func(p *core.Path) {
 				g := prepare(c, p)
 				did := false
 				locked := false
@@ -254,20 +254,24 @@ func runGrefcount(c *Ctx) {
 	iff(setCtx, "refcount.(*RefCount).SetContext/restart-iff-changed", fnot(eq(setCtxParam, "refcount.RefCount.ctx")), "restarting the resolution", token.NoPos)
 	lastGone := fand(eq("0", "len(refcount.RefCount.refs)"),
 		for_(for_(fnot(fld("refcount.RefCount.keepUnref")), fnot(fld(resolved))), fnot(eq("nil", "refcount.RefCount.valueErr"))))
-	// paths on which nothing was removed (a "the set shrank" comparison failed) are not judged
-	var remJudged []sp
+	// "the set shrank" (len after < len before) is part of the condition; the atom is taken from
+	// the code because it names a local
+	shrank := ""
 	for _, r := range remRef {
-		skip := false
 		for _, l := range r.lits {
-			if strings.HasPrefix(l.f.String(), "LT(") && !l.val || strings.HasPrefix(l.f.String(), "!LT(") && l.val {
-				skip = true
+			ats := map[string]*formula{}
+			l.f.atoms(ats)
+			for n := range ats {
+				if strings.HasPrefix(n, "LT(len(refcount.RefCount.refs),") {
+					shrank = n
+				}
 			}
 		}
-		if !skip || r.did {
-			remJudged = append(remJudged, r)
-		}
 	}
-	iff(remJudged, "refcount.(*RefCount).removeRef/shutdown-iff-last", lastGone, "shutting down", token.NoPos)
+	if shrank != "" {
+		lastGone = fand(atom(shrank), lastGone)
+	}
+	iff(remRef, "refcount.(*RefCount).removeRef/shutdown-iff-last", lastGone, "shutting down", token.NoPos)
 	a.expect("R12", "refcount.(*RefCount).SetContext/restart-iff-changed", 1, "paths of SetContext")
 	a.expect("R12", "refcount.(*RefCount).removeRef/shutdown-iff-last", 1, "paths of removeRef")
 	a.expect("R6a", "refcount.(*RefCount).AddRef/call(Ref.cb)", 1, "the callback call in AddRef")
@@ -282,7 +286,7 @@ func runGrefcount(c *Ctx) {
 				if ev.Kind == core.KCall && ev.Callee != nil && ev.Callee.Pkg() != nil && ev.Callee.Pkg().Path() == "sync/atomic" && (ev.Callee.Name() == "Swap" || ev.Callee.Name() == "CompareAndSwap") {
 					swapped = true
 				}
-				if ev.Kind == core.KCall && ev.Callee != nil && ev.Callee.Name() == "removeRef" {
+				if (ev.Kind == core.KCall || ev.Kind == core.KEnter) && ev.Callee != nil && ev.Callee.Name() == "removeRef" {
 					a.note("R16", name+"/test-and-set-prologue", ev.Pos, !swapped, "Release wins an atomic test-and-set before it removes the reference",
 						"Release removes the reference without an atomic test-and-set: a double release counts twice", p)
 				}
@@ -302,7 +306,7 @@ func runGrefcount(c *Ctx) {
 			g := prepare(c, p)
 			released := false
 			for i, ev := range p.Events {
-				if ev.Kind == core.KCall && ev.Callee != nil && core.FuncName(ev.Callee) == "refcount.(*Ref).Release" {
+				if (ev.Kind == core.KCall || ev.Kind == core.KEnter) && ev.Callee != nil && core.FuncName(ev.Callee) == "refcount.(*Ref).Release" {
 					released = true
 					errRole := "?err"
 					if v := localWhere(d, d.Decl, func(v *types.Var, _ *ast.Ident) bool { return isErrorType(v.Type()) }); v != nil {
